@@ -320,6 +320,20 @@ class Transformer(ast.NodeTransformer):
             return ast.copy_location(_call("join", f.value, node.args[0]), node)
         return node
 
+    def visit_BoolOp(self, node):
+        """`a or b` / `a and b` -> __vc__.boolop(is_or, lambda: a, lambda: b): Python's semantics on a real path;
+        inside a speculative evaluation (a merged conditional, the element test of any()) the operands are joined
+        into one term instead of asking for a decision."""
+        self.generic_visit(node)
+        if any(isinstance(n, (ast.NamedExpr, ast.Await, ast.Yield, ast.YieldFrom)) for n in ast.walk(node)):
+            return node
+
+        def thunk(e):
+            return ast.Lambda(args=ast.arguments(posonlyargs=[], args=[], kwonlyargs=[], kw_defaults=[],
+                                                 defaults=[]), body=e)
+
+        return ast.copy_location(_call("boolop", _const(isinstance(node.op, ast.Or)), *[thunk(v) for v in node.values]), node)
+
     def visit_IfExp(self, node):
         self.generic_visit(node)
 
@@ -624,6 +638,12 @@ def transformed_function(relpath: str, qual: str, while_specs=(), extra_havoc=No
         ns = dict(glob)
         exec(code, ns)  # noqa: S102
         fn = ns[node.name]
+        # the def statement bound the function's own name in its globals; in the real module a method is not a
+        # module global and a global of that name (e.g. the module `glob` inside NamedGlob.glob) keeps its meaning
+        if node.name in glob:
+            ns[node.name] = glob[node.name]
+        elif "." in qual:
+            del ns[node.name]
         return fn
 
     return factory, info
